@@ -558,6 +558,35 @@ def r24_guard0_equivalence(ctx):
     ctx.check(okf, R, fxc.node, fxc.qualname, 'Fixed declares itself inexact', 'exact = quasi_exact = False', 'Fixed.exact/quasi_exact changed',
               nontrivial=False)
     # geps with guard 0: scaleg = 1, 1 // 2 = 0 -> floor 1: differences < 1 stored unit, i.e. equality of integers (R23)
+    # (rule level) a rule that lets the caller choose the arithmetic treats the choice only as a source of DEFAULTS: inside a
+    # branch of options() that depends on the arithmetic name every statement is `[x =] options.setopt(name, default=...)`.
+    # Anything else (a forced value, a clamp, an extra test) makes fixed and guarded-with-guard-0 differ for the same
+    # explicitly given options.
+    from .common import rules as _rules
+    nb = 0
+    for ri in _rules(ctx):
+        if _forced_arithmetic(ctx, ri) is not None:
+            continue
+        opt = ri.cls.find_method('options')
+        if opt is None:
+            continue
+
+        def _arith_test(t):
+            return any((isinstance(x, ast.Constant) and x.value in ('fixed', 'guarded', 'rational', 'integer')) for x in ast.walk(t))
+        for node in opt.own_nodes():
+            if isinstance(node, ast.If) and _arith_test(node.test):
+                for blk in (node.body, [x for x in node.orelse if not isinstance(x, ast.If)]):
+                    for st in blk:
+                        nb += 1
+                        v = st.value if isinstance(st, (ast.Assign, ast.Expr)) else None
+                        okd = isinstance(v, ast.Call) and isinstance(v.func, ast.Attribute) and v.func.attr == 'setopt' \
+                            and not any(k.arg == 'force' for k in v.keywords) and any(k.arg == 'default' for k in v.keywords)
+                        ctx.check(okd, R, st, opt, 'in a rule with selectable arithmetic, the arithmetic only selects defaults: explicitly given options mean '
+                                  'the same under fixed and under guarded with guard 0',
+                                  '`%s` only supplies a default' % stmt_text(st),
+                                  '`%s` in the `%s` branch of %s.options() does more than supply a default: the same explicit options give different '
+                                  'counts under fixed and under guarded with guard=0' % (stmt_text(st), unparse(node.test), ri.short), nontrivial=False)
+    ctx.floor(R, 'arithmetic-dependent option defaults', nb, 7)
 
 
 # ---------------------------------------------------------------------------
@@ -773,6 +802,20 @@ def r25_printing(ctx):
                     for v in n.values:
                         if isinstance(v, ast.FormattedValue) and v.format_spec is not None:
                             ctx.bad(R, n, g, 'renderings print values with str() only', 'f-string format spec while rendering')
+                # the printed form is not edited afterwards: no string method / slice applied to str(<item>), and no
+                # special-casing of an arithmetic class (one stored value would print differently in report, dump and JSON)
+                if isinstance(n, (ast.Attribute, ast.Subscript)) and isinstance(n.value, ast.Call) and isinstance(n.value.func, ast.Name) \
+                        and n.value.func.id == 'str' and isinstance(n.ctx, ast.Load):
+                    n_r += 1
+                    ctx.bad(R, n, g, 'renderings print values with str() only', 'the printed form is edited afterwards: `%s`' % unparse(n.parent if isinstance(n.parent, ast.Call) else n))
+                if isinstance(n, ast.Call) and isinstance(n.func, ast.Name) and n.func.id == 'isinstance' and len(n.args) == 2 \
+                        and any(isinstance(x, (ast.Attribute, ast.Name)) and (getattr(x, 'attr', None) or getattr(x, 'id', None)) in ('Guarded', 'Fixed', 'Rational')
+                                for x in ast.walk(n.args[1])):
+                    in_encoder = g.name == 'default' and g.owner_class is not None and g.owner_class.qualname.startswith('droop.record.ElectionRecord.json.')
+                    n_r += 1
+                    ctx.check(in_encoder, R, n, g, 'renderings do not special-case an arithmetic class (the JSON encoder, which returns str(obj), excepted)',
+                              'isinstance test in the JSON encoder\'s default()', '`%s` in %s: one class of values is rendered differently here than elsewhere'
+                              % (unparse(n), g.qualname), nontrivial=False)
     js = repo.func('droop.record.ElectionRecord.json')
     enc = [c for c in repo.classes.values() if c.qualname.startswith('droop.record.ElectionRecord.json.')]
     okj = False
